@@ -32,6 +32,7 @@ type detRand struct {
 	mu     sync.Mutex
 	stream cipher.Stream
 	log    []byte
+	max    int // > 0: a Read returns at most max bytes (io.Reader allows short reads)
 }
 
 func newDetRand(seed uint64) *detRand {
@@ -46,6 +47,9 @@ func newDetRand(seed uint64) *detRand {
 func (d *detRand) Read(p []byte) (int, error) {
 	d.mu.Lock()
 	defer d.mu.Unlock()
+	if d.max > 0 && len(p) > d.max {
+		p = p[:d.max]
+	}
 	for i := range p {
 		p[i] = 0
 	}
@@ -224,6 +228,7 @@ type sessOpts struct {
 	mask      []byte
 	timeout   time.Duration
 	capacity  int
+	shortRand int // > 0: the randomness source returns at most this many bytes per Read
 }
 
 type sessResult struct {
@@ -294,6 +299,7 @@ func runSession(o sessOpts, gfun func(*env.Config, *p2p.Conn, ot.OT) ([]*big.Int
 	econn := p2p.NewConn(&sessRW{r: ge, w: eg})
 	res := &sessResult{otG: &otLog{inner: mkOT(o.ot)}, otE: &otLog{inner: mkOT(o.ot)}}
 	dr := newDetRand(o.randSeed)
+	dr.max = o.shortRand
 	cfg := &env.Config{Rand: dr}
 
 	var wg sync.WaitGroup
@@ -376,9 +382,13 @@ loop:
 type replayReader struct {
 	b   []byte
 	off int
+	max int
 }
 
 func (r *replayReader) Read(p []byte) (int, error) {
+	if r.max > 0 && len(p) > r.max {
+		p = p[:r.max]
+	}
 	if r.off+len(p) > len(r.b) {
 		return 0, fmt.Errorf("replay randomness exhausted")
 	}
@@ -387,12 +397,16 @@ func (r *replayReader) Read(p []byte) (int, error) {
 	return len(p), nil
 }
 
-func regarble(circ *circuit.Circuit, gRand []byte) (*circuit.Garbled, []byte, error) {
+func regarble(circ *circuit.Circuit, gRand []byte, shortRand ...int) (*circuit.Garbled, []byte, error) {
 	if len(gRand) < 48 {
 		return nil, nil, fmt.Errorf("garbler drew only %d random bytes", len(gRand))
 	}
 	key := gRand[:32]
-	g, err := circ.Garble(&replayReader{b: gRand[32:]}, key)
+	rr := &replayReader{b: gRand[32:]}
+	if len(shortRand) > 0 {
+		rr.max = shortRand[0]
+	}
+	g, err := circ.Garble(rr, key)
 	return g, key, err
 }
 
